@@ -40,7 +40,7 @@ const TARGET: PortSettings = PortSettings {
 
 #[derive(Clone, Copy, Debug, PartialEq, Eq)]
 enum Entry {
-    ConfigurePort(u64), // timeout in ms
+    ConfigurePort(Duration), // the caller's timeout
     SerialSignBus,
     Odk,
 }
@@ -93,9 +93,9 @@ fn run_case_budget(prior: PortSettings, entry: Entry, fault: Fault, fk: usize, b
     // Result: Ok(()) or Err((kind, description))
     let r = catch(|| -> Result<(), (ErrorKind, String)> {
         match entry {
-            Entry::ConfigurePort(ms) => {
+            Entry::ConfigurePort(timeout) => {
                 let mut p = mk_port();
-                flipdot_serial::configure_port(&mut p, Duration::from_millis(ms)).map_err(|e| (e.kind(), e.to_string()))
+                flipdot_serial::configure_port(&mut p, timeout).map_err(|e| (e.kind(), e.to_string()))
             }
             Entry::SerialSignBus => SerialSignBus::try_new(mk_port()).map(|_| ()).map_err(|e| (e.kind(), e.to_string())),
             Entry::Odk => Odk::try_new(mk_port(), VirtualSignBus::new(vec![])).map(|_| ()).map_err(|e| (e.kind(), e.to_string())),
@@ -155,8 +155,8 @@ fn run_case_budget(prior: PortSettings, entry: Entry, fault: Fault, fk: usize, b
             }
             match (s.timeout, entry) {
                 (None, _) => fail(rep, "no_timeout_applied", "Ok but no read timeout was applied".into()),
-                (Some(t), Entry::ConfigurePort(ms)) if t != Duration::from_millis(ms) => fail(rep, "wrong_timeout", format!("timeout {:?}, the caller asked for {} ms", t, ms)),
-                (Some(t), _) => rep.seen("timeouts_applied_ms", t.as_millis() as u64),
+                (Some(t), Entry::ConfigurePort(want)) if t != want => fail(rep, "wrong_timeout", format!("timeout {:?}, the caller asked for {:?}", t, want)),
+                (Some(t), _) => rep.seen("timeouts_applied_ms", t.as_millis().min(u128::from(u64::MAX)) as u64),
             }
         }
         (Ok(()), _) => {
@@ -191,24 +191,42 @@ pub fn run(ctx: &Ctx) -> Outcome {
     let np = priors.len();
     let report = run_sharded(ctx, np, |i, rep| {
         let prior = priors[i];
-        let entries = [Entry::ConfigurePort(0), Entry::ConfigurePort(1), Entry::ConfigurePort(5_000), Entry::ConfigurePort(3_600_000), Entry::SerialSignBus, Entry::Odk];
+        let entries = [Entry::ConfigurePort(Duration::from_millis(0)), Entry::ConfigurePort(Duration::from_millis(1)), Entry::ConfigurePort(Duration::from_millis(5_000)), Entry::ConfigurePort(Duration::from_millis(3_600_000)), Entry::SerialSignBus, Entry::Odk];
         for (j, e) in entries.into_iter().enumerate() {
             for fault in [Fault::None, Fault::ReadSettings, Fault::Baud, Fault::WriteSettings, Fault::SetTimeout] {
                 run_case(prior, e, fault, (i + j) % FAULT_KINDS.len(), rep);
             }
         }
         // transient refusals: the fault fires only once (or twice), at every fault point, for every entry point
-        for (j, e) in [Entry::ConfigurePort(777), Entry::SerialSignBus, Entry::Odk].into_iter().enumerate() {
+        for (j, e) in [Entry::ConfigurePort(Duration::from_millis(777)), Entry::SerialSignBus, Entry::Odk].into_iter().enumerate() {
             for fault in [Fault::ReadSettings, Fault::Baud, Fault::WriteSettings, Fault::SetTimeout] {
                 for budget in [1usize, 2] {
                     run_case_budget(prior, e, fault, (i + j + budget) % FAULT_KINDS.len(), budget, rep);
                 }
             }
         }
+        // the caller's timeout is applied as given, whatever its magnitude or granularity (no fault, a few priors per shard)
+        if i % 8 == 0 {
+            for t in [
+                Duration::from_nanos(1),
+                Duration::from_micros(600),
+                Duration::from_micros(1_563),
+                Duration::from_millis(1) + Duration::from_nanos(1),
+                Duration::from_millis(999) + Duration::from_nanos(999_999),
+                Duration::from_secs(24 * 24 * 3600),
+                Duration::from_secs(30 * 24 * 3600),
+                Duration::from_secs(u64::from(u32::MAX) + 1),
+                Duration::new(u64::MAX / 1000, 999_999_999),
+                Duration::MAX,
+            ] {
+                run_case(prior, Entry::ConfigurePort(t), Fault::None, 0, rep);
+                rep.count("unusual_timeouts_applied");
+            }
+        }
         // every error kind at every fault point (persistent faults), on a few priors per shard
         if i % 16 == 0 {
             for fk in 0..FAULT_KINDS.len() {
-                for e in [Entry::ConfigurePort(250), Entry::SerialSignBus, Entry::Odk] {
+                for e in [Entry::ConfigurePort(Duration::from_millis(250)), Entry::SerialSignBus, Entry::Odk] {
                     for fault in [Fault::ReadSettings, Fault::Baud, Fault::WriteSettings, Fault::SetTimeout] {
                         run_case(prior, e, fault, fk, rep);
                         rep.seen("fault_kind_x_point", (fk * 4 + fault as usize) as u64);
@@ -221,6 +239,7 @@ pub fn run(ctx: &Ctx) -> Outcome {
     let mut floors = vec![
         floor("all 864 prior settings", report.get("priors_done") == 864, report.get("priors_done")),
         floor("transient (one- and two-shot) refusals at every fault point for every prior", report.get("transient_fault_cases") == 864 * 3 * 4 * 2, report.get("transient_fault_cases")),
+        floor("sub-millisecond, fractional and very long caller timeouts", report.get("unusual_timeouts_applied") == 108 * 10, report.get("unusual_timeouts_applied")),
         floor("every error kind (7, incl. Interrupted) at every fault point (4)", report.set_len("fault_kind_x_point") == 28, report.set_len("fault_kind_x_point")),
     ];
     for e in ["configure_port", "SerialSignBus", "Odk"] {
@@ -232,7 +251,7 @@ pub fn run(ctx: &Ctx) -> Outcome {
     Outcome {
         report,
         level: "fault_enumeration",
-        rule: "complete product: 12 baud values x 4 character sizes x 3 parities x 2 stop bits x 3 flow controls = 864 prior settings x 3 entry points (configure_port with timeouts 0, 1 ms, 5 s, 1 h; SerialSignBus::try_new; Odk::try_new) x (no fault + a persistent failure of read_settings / baud-rate setter / write_settings / set_timeout), plus one- and two-shot refusals at every fault point for every prior, plus all 7 error kinds (NoDevice, InvalidInput, Io(PermissionDenied / Interrupted / TimedOut / WouldBlock / Other)) at every fault point on a sample of priors; distinct by (prior, entry, fault); all non-trivial".into(),
+        rule: "complete product: 12 baud values x 4 character sizes x 3 parities x 2 stop bits x 3 flow controls = 864 prior settings x 3 entry points (configure_port with timeouts 0, 1 ms, 5 s, 1 h, and on every 8th prior 1 ns, 600 us, 1563 us, 1 ms + 1 ns, 999.999999 ms, 24 and 30 days, 2^32 s, Duration::MAX; SerialSignBus::try_new; Odk::try_new) x (no fault + a persistent failure of read_settings / baud-rate setter / write_settings / set_timeout), plus one- and two-shot refusals at every fault point for every prior, plus all 7 error kinds (NoDevice, InvalidInput, Io(PermissionDenied / Interrupted / TimedOut / WouldBlock / Other)) at every fault point on a sample of priors; distinct by (prior, entry, fault); all non-trivial".into(),
         exhaustive: true,
         floors,
         assumptions: vec![
